@@ -66,7 +66,8 @@ def concretize(model, syms):
 
 def run_native(args, timeout=1800):
     env = dict(os.environ)
-    env["PYTHONPATH"] = HERE + os.pathsep + env.get("PYTHONPATH", "")
+    src = os.environ.get("PYVC_SRC")
+    env["PYTHONPATH"] = (src + os.pathsep if src else "") + HERE + os.pathsep + env.get("PYTHONPATH", "")
     env.setdefault("OMP_NUM_THREADS", "1")
     p = subprocess.run([NATIVE_PY, os.path.join(HERE, "native", "run.py")] + args, capture_output=True, text=True,
                        timeout=timeout, env=env, cwd=HERE)
@@ -195,7 +196,7 @@ def main():
             if ob.model is not None:
                 rec["solver_model"] = str(ob.model)[:4000]
             if ri and ob.model is not None:
-                rec["case"] = {"kind": ri["kind"], "values": concretize(ob.model, ri["syms"])}
+                rec["case"] = {"kind": ri["kind"], "values": concretize(ob.model, ri["syms"]), **ri.get("extra", {})}
                 with open(os.path.join(HERE, rp), "w") as f:
                     json.dump(rec, f, indent=1)
                 if not a.no_native:
